@@ -298,7 +298,18 @@ func (p *c08) build(i int) (*Program, *c08gen) {
 		baseBody = append(baseBody, tx(g.mark()))
 		ts["base"] = tpl("base", baseBody...)
 		content := &gen.NBlock{Name: "content", Body: g.body(depth, "content", false)}
-		ts["main"] = tpl("main", &gen.NExtends{Tpl: str("base")}, content)
+		child := []gen.Node{&gen.NExtends{Tpl: str("base")}}
+		if len(g.forced) == 0 && r.Intn(3) == 0 {
+			// captures at the top level of the extending template, in source order between the macro they call and
+			// one defined only afterwards: the value is what the body produced when the statement was reached
+			tm := &gen.NMacro{Name: "tm", Params: []string{"p"}, Body: []gen.Node{tx(g.mark()), pr(nm("p")), tx(g.mark())}}
+			capBody := []gen.Node{tx(g.mark()), pr(&gen.EMethod{X: nm("_self"), Name: "tm", Args: []gen.Expr{str("A.")}}), tx(g.mark())}
+			child = append(child, tm, &gen.NSetCap{Name: "topcap", Body: capBody},
+				&gen.NSet{Name: "topval", X: &gen.EBin{Op: "~", L: &gen.EMethod{X: nm("_self"), Name: "tm", Args: []gen.Expr{str("B.")}}, R: nm("topcap")}})
+			content.Body = append(content.Body, tx("<"), pr(nm("topcap")), tx("|"), pr(nm("topval")), tx(">"))
+			g.paths = append(g.paths, "child-top-level-capture")
+		}
+		ts["main"] = tpl("main", append(child, content)...)
 	} else {
 		body := []gen.Node{tx(g.mark())}
 		body = append(body, g.body(depth, "", false)...)
